@@ -244,6 +244,41 @@ func (s *shrinker) shrink(run *work.Run) *work.Run {
 				improved = true
 			}
 		}
+		for cur.Entropy.Rep != nil {
+			// the long run of rejected blocks: drop it, else halve it
+			c := cloneRun(cur)
+			cut := 32 * c.Entropy.Rep.Count
+			at := c.Entropy.Rep.At
+			c.Entropy.Rep = nil
+			c.Entropy.Stream = nil
+			for i := range c.Entropy.Events {
+				if c.Entropy.Events[i].Off >= at+cut {
+					c.Entropy.Events[i].Off -= cut
+				}
+			}
+			if s.firstOK([]*work.Run{c}) == 0 {
+				cur = c
+				improved = true
+				break
+			}
+			if cur.Entropy.Rep.Count < 2 {
+				break
+			}
+			c = cloneRun(cur)
+			half := c.Entropy.Rep.Count / 2
+			c.Entropy.Rep.Count -= half
+			c.Entropy.Stream = nil
+			for i := range c.Entropy.Events {
+				if c.Entropy.Events[i].Off >= at+cut {
+					c.Entropy.Events[i].Off -= 32 * half
+				}
+			}
+			if s.firstOK([]*work.Run{c}) != 0 {
+				break
+			}
+			cur = c
+			improved = true
+		}
 		if cur.Entropy.MaxChunk > 0 {
 			c := cloneRun(cur)
 			c.Entropy.MaxChunk = 0
